@@ -162,6 +162,10 @@ def gen(seed, tier):
     for op in UNARY:
         for ty in ("f64p", "f32p"):
             out.append(f"ew1@{ty} s{hexs(op)} {arr([30], list(range(30)))}")
+    # nan_to_num keeps every finite value as it is, in the element type: 64-bit integers no double represents
+    for ty, vals in (("i64", [2 ** 53 + 1, -(2 ** 53) - 1, 2 ** 62 + 1, 2 ** 63 - 1, -(2 ** 63), 0, 7]), ("u64", [2 ** 53 + 1, 2 ** 64 - 2, 2 ** 63 + 1, 0, 7])):
+        out.append(f"ew1@{ty} s{hexs('nan_to_num')} {arr([len(vals)], vals)}")
+        out.append(f"ew1@{ty} s{hexs('positive')} {arr([len(vals)], vals)}")
     for op in ZUNARY:
         for sh in sh3[::2]:
             es = [rng.randint(-50, 50) for _ in range(prod(sh))]
